@@ -160,6 +160,23 @@ func constInt(v ssa.Value) (int64, bool) {
 	if cv, ok := v.(*ssa.Convert); ok {
 		return constInt(cv.X)
 	}
+	if b, ok := v.(*ssa.BinOp); ok {
+		// arithmetic on constants that go/ssa leaves unfolded ("start := HeaderLen; end := start + 4": start is a variable,
+		// so start + 4 is not a constant expression of the language, but its value is known)
+		x, okx := constInt(b.X)
+		y, oky := constInt(b.Y)
+		if okx && oky {
+			switch b.Op {
+			case token.ADD:
+				return x + y, true
+			case token.SUB:
+				return x - y, true
+			case token.MUL:
+				return x * y, true
+			}
+		}
+		return 0, false
+	}
 	c, ok := v.(*ssa.Const)
 	if !ok || c.Value == nil {
 		return 0, false
@@ -287,10 +304,11 @@ func (q *pathQuery) find(from ssa.Instruction) ([]string, bool) {
 func (q *pathQuery) findFromBlock(b *ssa.BasicBlock) ([]string, bool) { return q.findAt(b, 0) }
 
 func (q *pathQuery) findAt(b *ssa.BasicBlock, start int) ([]string, bool) {
-	visited := map[*ssa.BasicBlock]bool{}
+	type vkey struct{ pred, b *ssa.BasicBlock }
+	visited := map[vkey]bool{}
 	var trail []string
-	var walk func(b *ssa.BasicBlock, idx int) bool
-	walk = func(b *ssa.BasicBlock, idx int) bool {
+	var walk func(pred, b *ssa.BasicBlock, idx int) bool
+	walk = func(pred, b *ssa.BasicBlock, idx int) bool {
 		trail = append(trail, fmt.Sprintf("b%d", b.Index))
 		for i := idx; i < len(b.Instrs); i++ {
 			in := b.Instrs[i]
@@ -313,7 +331,8 @@ func (q *pathQuery) findAt(b *ssa.BasicBlock, start int) ([]string, bool) {
 				return false
 			}
 		}
-		for si, s := range b.Succs {
+		for _, si := range feasibleSuccs(pred, b) {
+			s := b.Succs[si]
 			if q.prune != nil && q.prune(b, si) {
 				continue
 			}
@@ -321,21 +340,186 @@ func (q *pathQuery) findAt(b *ssa.BasicBlock, start int) ([]string, bool) {
 				trail = append(trail, fmt.Sprintf("b%d(loop head)", s.Index))
 				return true
 			}
-			if visited[s] {
+			k := vkey{nil, s}
+			if isThreadBlock(s) {
+				k.pred = b
+			}
+			if visited[k] {
 				continue
 			}
-			visited[s] = true
-			if walk(s, 0) {
+			visited[k] = true
+			if walk(b, s, 0) {
 				return true
 			}
 		}
 		trail = trail[:len(trail)-1]
 		return false
 	}
-	if walk(b, start) {
+	if walk(nil, b, start) {
 		return trail, true
 	}
 	return nil, false
+}
+
+// ---------- branch threading ----------
+//
+// A block that tests a phi of its own (if r0 != nil, if !ok) takes a known successor for each predecessor whose phi edge
+// is a constant or a value of known nil-ness. This is the shape that "a helper returns a status which the caller tests at
+// once" has after the helper was spliced into its call site (normalize.go); following only the feasible successor keeps
+// the path rules as precise on the spliced form as they were on the original, un-extracted code.
+
+func isThreadBlock(b *ssa.BasicBlock) bool {
+	i := ifOf(b)
+	if i == nil {
+		return false
+	}
+	return condUsesPhiOf(i.Cond, b, 0)
+}
+
+func condUsesPhiOf(c ssa.Value, b *ssa.BasicBlock, d int) bool {
+	if d > 4 {
+		return false
+	}
+	switch x := stripChange(c).(type) {
+	case *ssa.Phi:
+		return x.Block() == b
+	case *ssa.UnOp:
+		if x.Op == token.NOT {
+			return condUsesPhiOf(x.X, b, d+1)
+		}
+	case *ssa.BinOp:
+		return condUsesPhiOf(x.X, b, d+1) || condUsesPhiOf(x.Y, b, d+1)
+	}
+	return false
+}
+
+// feasibleSuccs lists the successor indexes of b that can be taken when b is entered from pred (nil: unknown).
+func feasibleSuccs(pred, b *ssa.BasicBlock) []int {
+	all := make([]int, len(b.Succs))
+	for i := range all {
+		all[i] = i
+	}
+	i := ifOf(b)
+	if i == nil || pred == nil || len(b.Succs) != 2 {
+		return all
+	}
+	if v, known := evalCondFrom(i.Cond, pred, b, 0); known {
+		if v {
+			return []int{0}
+		}
+		return []int{1}
+	}
+	return all
+}
+
+func phiEdgeFrom(ph *ssa.Phi, pred *ssa.BasicBlock) ssa.Value {
+	for i, p := range ph.Block().Preds {
+		if p == pred && i < len(ph.Edges) {
+			return ph.Edges[i]
+		}
+	}
+	return nil
+}
+
+func evalCondFrom(c ssa.Value, pred, b *ssa.BasicBlock, d int) (val, known bool) {
+	if d > 5 {
+		return false, false
+	}
+	switch x := c.(type) {
+	case *ssa.Const:
+		if x.Value != nil && x.Value.Kind() == constant.Bool {
+			return constant.BoolVal(x.Value), true
+		}
+	case *ssa.UnOp:
+		if x.Op == token.NOT {
+			v, k := evalCondFrom(x.X, pred, b, d+1)
+			return !v, k
+		}
+	case *ssa.Phi:
+		if x.Block() == b {
+			if e := phiEdgeFrom(x, pred); e != nil {
+				if cst, ok := e.(*ssa.Const); ok && cst.Value != nil && cst.Value.Kind() == constant.Bool {
+					return constant.BoolVal(cst.Value), true
+				}
+			}
+		}
+	case *ssa.BinOp:
+		if x.Op != token.EQL && x.Op != token.NEQ {
+			return false, false
+		}
+		for _, pair := range [][2]ssa.Value{{x.X, x.Y}, {x.Y, x.X}} {
+			cst, ok := pair[1].(*ssa.Const)
+			if !ok {
+				continue
+			}
+			if cst.IsNil() {
+				if isNil, k := nilnessFrom(pair[0], pred, b); k {
+					return isNil == (x.Op == token.EQL), true
+				}
+				continue
+			}
+			// comparison of a phi of constants with a constant
+			if ph, ok := stripChange(pair[0]).(*ssa.Phi); ok && ph.Block() == b {
+				if e := phiEdgeFrom(ph, pred); e != nil {
+					if ec, ok := e.(*ssa.Const); ok && ec.Value != nil && cst.Value != nil {
+						eq := constant.Compare(ec.Value, token.EQL, cst.Value)
+						return eq == (x.Op == token.EQL), true
+					}
+				}
+			}
+		}
+	}
+	return false, false
+}
+
+// nilnessFrom: is v nil when b is entered from pred? Only phis of b are resolved (through the edge of pred).
+func nilnessFrom(v ssa.Value, pred, b *ssa.BasicBlock) (isNil, known bool) {
+	v = stripChange(v)
+	if ph, ok := v.(*ssa.Phi); ok && ph.Block() == b {
+		e := phiEdgeFrom(ph, pred)
+		if e == nil {
+			return false, false
+		}
+		return nilnessAt(e, pred, b)
+	}
+	if c, ok := v.(*ssa.Const); ok {
+		return c.IsNil(), true
+	}
+	return false, false
+}
+
+// nilnessAt: nil-ness of value e at the end of block blk on the edge to `to`.
+func nilnessAt(e ssa.Value, blk, to *ssa.BasicBlock) (isNil, known bool) {
+	for d := 0; d < 4; d++ {
+		switch x := e.(type) {
+		case *ssa.Const:
+			return x.IsNil(), true
+		case *ssa.MakeInterface:
+			return false, true
+		case *ssa.Call:
+			n := calleeName(&x.Call)
+			if n == "fmt.Errorf" || n == "errors.New" {
+				return false, true
+			}
+		case *ssa.ChangeInterface:
+			e = x.X
+			continue
+		}
+		break
+	}
+	for _, f := range edgeFacts(blk, to) {
+		if f.X == e {
+			if c, ok := f.Y.(*ssa.Const); ok && c.IsNil() {
+				if f.Op == token.NEQ {
+					return false, true
+				}
+				if f.Op == token.EQL {
+					return true, true
+				}
+			}
+		}
+	}
+	return false, false
 }
 
 // describePath renders a block trail with source lines.
@@ -604,6 +788,9 @@ func rangeElem(v ssa.Value) (ssa.Value, bool) {
 	if ia == nil {
 		return nil, false
 	}
+	if s, ok := indexLoopElem(ia); ok {
+		return s, true
+	}
 	k, ok := ia.Index.(*ssa.BinOp)
 	if !ok || k.Op != token.ADD {
 		return nil, false
@@ -646,17 +833,27 @@ func rangeElem(v ssa.Value) (ssa.Value, bool) {
 // onlyErrorReturnsFrom: every path starting at block b reaches a Return with a non-nil error (no other exit, no way
 // back into a loop: paths that reach any block in `stop` count as escaping).
 func onlyErrorReturnsFrom(b *ssa.BasicBlock) bool {
-	seen := map[*ssa.BasicBlock]bool{}
+	return onlyErrorReturnsFromEdge(nil, b)
+}
+
+// onlyErrorReturnsFromEdge is onlyErrorReturnsFrom for the edge pred -> b (branch threading applies).
+func onlyErrorReturnsFromEdge(pred, b *ssa.BasicBlock) bool {
+	type vkey struct{ pred, b *ssa.BasicBlock }
+	seen := map[vkey]bool{}
 	ok := true
-	var walk func(x *ssa.BasicBlock)
-	walk = func(x *ssa.BasicBlock) {
-		if seen[x] || !ok {
+	var walk func(pred, x *ssa.BasicBlock)
+	walk = func(pred, x *ssa.BasicBlock) {
+		k := vkey{nil, x}
+		if isThreadBlock(x) {
+			k.pred = pred
+		}
+		if seen[k] || !ok {
 			return
 		}
-		seen[x] = true
+		seen[k] = true
 		for _, in := range x.Instrs {
 			if r, isR := in.(*ssa.Return); isR {
-				if !isDefiniteErrorReturn(r) {
+				if !isDefiniteErrorReturnFrom(r, pred) {
 					ok = false
 				}
 				return
@@ -668,15 +865,16 @@ func onlyErrorReturnsFrom(b *ssa.BasicBlock) bool {
 		if len(x.Succs) == 0 {
 			ok = false
 		}
-		for _, s := range x.Succs {
+		for _, si := range feasibleSuccs(pred, x) {
+			s := x.Succs[si]
 			if s.Dominates(x) { // back edge: leaves the error path
 				ok = false
 				return
 			}
-			walk(s)
+			walk(x, s)
 		}
 	}
-	walk(b)
+	walk(pred, b)
 	return ok
 }
 
@@ -700,7 +898,7 @@ func errEdgeReturns(ev ssa.Value) bool {
 			if !ne {
 				succ = 1
 			}
-			if onlyErrorReturnsFrom(i.Block().Succs[succ]) {
+			if onlyErrorReturnsFromEdge(i.Block(), i.Block().Succs[succ]) {
 				return true
 			}
 		}
@@ -756,9 +954,21 @@ func retResult(r *ssa.Return, i int) ssa.Value {
 
 // isDefiniteErrorReturn: the returned error is known to be non-nil: a fresh fmt.Errorf/errors.New value, or a value that
 // the dominating branch conditions prove non-nil. ("return f()" or "return x, err" without such a proof may return nil.)
-func isDefiniteErrorReturn(r *ssa.Return) bool {
+func isDefiniteErrorReturn(r *ssa.Return) bool { return isDefiniteErrorReturnFrom(r, nil) }
+
+// isDefiniteErrorReturnFrom: like isDefiniteErrorReturn, for the path that entered the return's block from pred (a phi
+// of that block is resolved through the edge of pred).
+func isDefiniteErrorReturnFrom(r *ssa.Return, pred *ssa.BasicBlock) bool {
 	if len(r.Results) == 0 {
 		return false
+	}
+	if pred != nil {
+		i := len(r.Results) - 1
+		if ph, ok := stripChange(retResult(r, i)).(*ssa.Phi); ok && ph.Block() == r.Block() {
+			if isNil, known := nilnessFrom(ph, pred, r.Block()); known {
+				return !isNil
+			}
+		}
 	}
 	i := len(r.Results) - 1
 	if !types.Identical(r.Results[i].Type(), types.Universe.Lookup("error").Type()) {
@@ -791,4 +1001,192 @@ func isDefiniteErrorReturn(r *ssa.Return) bool {
 	}
 	// the store that feeds a defer-spilled result may sit under the fact
 	return false
+}
+
+// indexLoopElem: ia is &S[i] where i is the counter of `for i := 0; i < len(S); i++` (0 on entry, i+1 on every back edge,
+// tested against len(S) - taken directly or through a local - in the loop head): the same visit of every element in order
+// as `for _, e := range S`.
+func indexLoopElem(ia *ssa.IndexAddr) (ssa.Value, bool) {
+	ph, ok := ia.Index.(*ssa.Phi)
+	if !ok {
+		return nil, false
+	}
+	hb := ph.Block()
+	for i, e := range ph.Edges {
+		pred := hb.Preds[i]
+		if hb.Dominates(pred) { // back edge
+			b, ok := e.(*ssa.BinOp)
+			if !ok || b.Op != token.ADD || b.X != ssa.Value(ph) {
+				return nil, false
+			}
+			if c, ok := constInt(b.Y); !ok || c != 1 {
+				return nil, false
+			}
+		} else if c, ok := constInt(e); !ok || c != 0 {
+			return nil, false
+		}
+	}
+	i := ifOf(hb)
+	if i == nil {
+		return nil, false
+	}
+	cond, ok := i.Cond.(*ssa.BinOp)
+	if !ok {
+		return nil, false
+	}
+	var bound ssa.Value
+	switch {
+	case cond.Op == token.LSS && cond.X == ssa.Value(ph):
+		bound = cond.Y
+	case cond.Op == token.GTR && cond.Y == ssa.Value(ph):
+		bound = cond.X
+	default:
+		return nil, false
+	}
+	if cv, ok := bound.(*ssa.Convert); ok {
+		bound = cv.X
+	}
+	lc, ok := bound.(*ssa.Call)
+	if !ok {
+		return nil, false
+	}
+	if b, ok := lc.Call.Value.(*ssa.Builtin); !ok || b.Name() != "len" || !sameValue(lc.Call.Args[0], ia.X) {
+		return nil, false
+	}
+	// the element is used in the body (the true edge of the test)
+	if !edgeDominates(hb, 0, ia.Block()) && ia.Block() != hb.Succs[0] {
+		return nil, false
+	}
+	return ia.X, true
+}
+
+// rangeLoopCounter: ph is the counter of a range loop (init -1, +1 before the test) or of an index loop (init 0, +1 on the
+// back edge): every edge is a small constant or ph + 1.
+func rangeLoopCounter(ph *ssa.Phi) (ssa.Value, bool) {
+	if ph.Comment == "rangeindex" {
+		return ph, true
+	}
+	inc := false
+	for _, e := range ph.Edges {
+		if c, ok := constInt(e); ok && (c == 0 || c == -1) {
+			continue
+		}
+		b, ok := e.(*ssa.BinOp)
+		if !ok || b.Op != token.ADD || b.X != ssa.Value(ph) {
+			return nil, false
+		}
+		if c, ok := constInt(b.Y); !ok || c != 1 {
+			return nil, false
+		}
+		inc = true
+	}
+	return ph, inc
+}
+
+// sameValue: a and b denote the same value: identical, or (go/ssa performs no CSE) two loads of the same location
+// (field of the same base, element of the same slice at the same index, same global), or equal constants, or the same
+// pure builtin (len, cap) of the same value. Intervening stores are not considered: the helper is used for repeated
+// sub-expressions inside one loop iteration / one straight-line region.
+func sameValue(a, b ssa.Value) bool {
+	return sameValueD(a, b, 0)
+}
+
+func sameValueD(a, b ssa.Value, d int) bool {
+	a, b = stripChange(a), stripChange(b)
+	if a == b {
+		return true
+	}
+	if a == nil || b == nil || d > 6 {
+		return false
+	}
+	switch x := a.(type) {
+	case *ssa.Const:
+		y, ok := b.(*ssa.Const)
+		if !ok {
+			return false
+		}
+		if x.Value == nil || y.Value == nil {
+			return x.Value == nil && y.Value == nil && types.Identical(x.Type(), y.Type())
+		}
+		return constant.Compare(x.Value, token.EQL, y.Value)
+	case *ssa.UnOp:
+		y, ok := b.(*ssa.UnOp)
+		if !ok || x.Op != y.Op {
+			return false
+		}
+		if x.Op == token.MUL {
+			return sameAddr(x.X, y.X, d+1)
+		}
+		return sameValueD(x.X, y.X, d+1)
+	case *ssa.Convert:
+		y, ok := b.(*ssa.Convert)
+		return ok && types.Identical(x.Type(), y.Type()) && sameValueD(x.X, y.X, d+1)
+	case *ssa.FieldAddr, *ssa.IndexAddr:
+		return sameAddr(a, b, d+1)
+	case *ssa.Call:
+		y, ok := b.(*ssa.Call)
+		if !ok {
+			return false
+		}
+		bx, ok1 := x.Call.Value.(*ssa.Builtin)
+		by, ok2 := y.Call.Value.(*ssa.Builtin)
+		if ok1 && ok2 && bx.Name() == by.Name() && (bx.Name() == "len" || bx.Name() == "cap") && len(x.Call.Args) == 1 && len(y.Call.Args) == 1 {
+			return sameValueD(x.Call.Args[0], y.Call.Args[0], d+1)
+		}
+	}
+	return false
+}
+
+func sameAddr(a, b ssa.Value, d int) bool {
+	if a == b {
+		return true
+	}
+	switch x := a.(type) {
+	case *ssa.FieldAddr:
+		y, ok := b.(*ssa.FieldAddr)
+		return ok && x.Field == y.Field && types.Identical(x.X.Type(), y.X.Type()) && sameValueD(x.X, y.X, d+1)
+	case *ssa.IndexAddr:
+		y, ok := b.(*ssa.IndexAddr)
+		return ok && sameValueD(x.X, y.X, d+1) && sameValueD(x.Index, y.Index, d+1)
+	case *ssa.Global:
+		return a == b
+	}
+	return false
+}
+
+// cmpForm is one way of reading a branch condition: "X Op Y holds on successor Succ".
+type cmpForm struct {
+	X, Y ssa.Value
+	Op   token.Token
+	Succ int
+}
+
+// cmpForms lists every equivalent reading of a relational branch condition: both operand orders and both polarities
+// (a != b on the true edge is a == b on the false edge), through leading negations. A rule states the relation it needs
+// in one canonical orientation and finds it whichever way the source spells it.
+func cmpForms(cond ssa.Value) []cmpForm {
+	succT, succF := 0, 1
+	for {
+		u, ok := cond.(*ssa.UnOp)
+		if !ok || u.Op != token.NOT {
+			break
+		}
+		cond = u.X
+		succT, succF = succF, succT
+	}
+	b, ok := cond.(*ssa.BinOp)
+	if !ok {
+		return nil
+	}
+	switch b.Op {
+	case token.LSS, token.LEQ, token.GTR, token.GEQ, token.EQL, token.NEQ:
+	default:
+		return nil
+	}
+	return []cmpForm{
+		{b.X, b.Y, b.Op, succT},
+		{b.Y, b.X, flipOp(b.Op), succT},
+		{b.X, b.Y, negateOp(b.Op), succF},
+		{b.Y, b.X, flipOp(negateOp(b.Op)), succF},
+	}
 }
